@@ -4,6 +4,7 @@ import (
 	"fmt"
 	"go/token"
 	"go/types"
+	"sort"
 	"strings"
 
 	"golang.org/x/tools/go/ssa"
@@ -511,6 +512,38 @@ func checkSchedulerWaits(c *Ctx, sr *schedRoles, rule string) {
 	if n == 0 {
 		c.R.Pass(rule, p.Name+":priority#wait", "-", "the scheduler has no plain channel wait")
 	}
+	// blocking selects: each can be woken by what the scheduler is there for - a release, the
+	// hand-over of an item to a handler, or an input together with a live ticker. A select that only
+	// listens for stop / cancel / commands parks the scheduler: closed inputs and (v1) the graceful
+	// request go unnoticed
+	m := 0
+	for _, fn := range sr.rt.Funcs {
+		for _, op := range p.BlockingOps(fn) {
+			if op.Kind != "select" || op.Sel == nil || op.Sel.HasDefault {
+				continue
+			}
+			m++
+			kinds := map[string]bool{}
+			var roles []string
+			for _, cs := range op.Sel.Cases {
+				role := p.chanRole(cs.State.Chan)
+				roles = append(roles, role)
+				switch {
+				case cs.State.Dir == types.SendOnly && (role == "field:output" || role == "field:opts.Output"):
+					kinds["deliver"] = true
+				case role == "field:feedback" || role == "field:opts.Feedback":
+					kinds["release"] = true
+				case strings.HasPrefix(role, "table:"):
+					kinds["input"] = true
+				case strings.HasPrefix(role, "ticker:"):
+					kinds["tick"] = true
+				}
+			}
+			okSel := kinds["deliver"] || kinds["release"] || (kinds["input"] && kinds["tick"])
+			c.R.Check(okSel, rule, fmt.Sprintf("%s#select.%d", p.FnKey(fn), m), p.InstrPos(op.In), "woken by a release, a hand-over, or an input with a live ticker",
+				"the scheduler parks in a select that listens only for "+strings.Join(roles, ", ")+": neither a release nor an item wakes it, so it notices neither that the inputs are closed and empty nor (v1) the graceful request - termination is never signalled")
+		}
+	}
 }
 
 // tickerInterference lists the sites of the routine that stop or re-arm the ticker field other
@@ -559,4 +592,293 @@ func isProductCall(p *Prog, v ssa.Value) bool {
 	}
 	cal := p.Callee(call)
 	return cal != nil && p.IsProduct(cal)
+}
+
+// checkExposedClosed (C07/E14, C03/J11): every channel a discipline makes itself and hands out
+// through an exported method (Output(), Err()) is closed by an unconditional defer of the
+// goroutine entry - that close is how termination is observed. (The only-in-defers direction is
+// E5; this is the must direction.)
+func checkExposedClosed(c *Ctx, p *Prog, rule string, only func(d *Disc) bool) {
+	n := 0
+	for _, d := range p.Discs() {
+		if only != nil && !only(d) {
+			continue
+		}
+		exposed := exposedChannels(p, d)
+		if len(exposed) == 0 {
+			continue
+		}
+		// channels the constructor makes (a user-supplied channel is the user's to close)
+		made := map[string]bool{}
+		for _, ctor := range d.Ctors {
+			for _, b := range ctor.Blocks {
+				for _, in := range b.Instrs {
+					st, ok := in.(*ssa.Store)
+					if !ok {
+						continue
+					}
+					fa, isFA := st.Addr.(*ssa.FieldAddr)
+					if !isFA || rootStructOf(fa) != d.Named {
+						continue
+					}
+					if xs := p.SymX(st.Val); xs.Op == "make" && strings.HasPrefix(xs.Name, "chan#") {
+						made["field:"+fieldName(fa.X.Type(), fa.Field)] = true
+					}
+				}
+			}
+		}
+		closed := map[string]bool{}
+		undecided := false
+		for _, e := range d.Gos {
+			if e.Parent != nil || e.Multi || e.Entry == nil {
+				continue
+			}
+			order, ok := p.CleanupOrder(e.Entry)
+			if !ok {
+				undecided = true
+				continue
+			}
+			for _, df := range order {
+				if k, a := p.deferKind(df); k == "close" {
+					closed[a] = true
+				}
+			}
+		}
+		var roles []string
+		for role := range exposed {
+			roles = append(roles, role)
+		}
+		sort.Strings(roles)
+		for _, role := range roles {
+			if !made[role] {
+				continue
+			}
+			n++
+			key := fmt.Sprintf("%s:%s#closed:%s", p.Name, d.Name, strings.TrimPrefix(role, "field:"))
+			switch {
+			case closed[role]:
+				c.R.Pass(rule, key, "-", "closed by a defer of the goroutine entry")
+			case undecided:
+				c.R.Fail(rule, key, "-", "UNDECIDED: conditional defer in the goroutine entry")
+			default:
+				c.R.Fail(rule, key, "-", "the channel "+strings.TrimPrefix(role, "field:")+" is handed out by an exported method but never closed by the discipline's goroutine: a consumer waiting for it to be closed (the termination signal) waits for ever")
+			}
+		}
+	}
+	if n == 0 {
+		c.R.Fail(rule, p.Name+"#closed", "-", "UNRESOLVED-ANCHOR: no exposed channel made by a constructor found")
+	}
+}
+
+// checkErrorTests (C15/D10, C13/V8, constructors): the contradiction form of error discipline.
+// (a) a function never returns, as its error, a value it has just tested to be nil
+// (`if err == nil { return err }`: an inverted test - the failure path continues and the success
+// path leaves early with "no error"); (b) a function never reports success (a nil error constant)
+// on the edge where an error obtained from a product call was tested non-nil (the fault is
+// swallowed). Returns the number of error tests examined.
+func checkErrorTests(c *Ctx, p *Prog, rule string, fns []*ssa.Function) int {
+	isErrType := func(t types.Type) bool { return typeShort(t) == "error" }
+	n := 0
+	for _, fn := range fns {
+		k := 0
+		for _, b := range fn.Blocks {
+			ret, ok := b.Instrs[len(b.Instrs)-1].(*ssa.Return)
+			if !ok || b == fn.Recover {
+				continue
+			}
+			for _, rv := range ret.Results {
+				if !isErrType(rv.Type()) {
+					continue
+				}
+				for _, e := range DomEdges(b) {
+					iff, isIf := e.From.Instrs[len(e.From.Instrs)-1].(*ssa.If)
+					if !isIf {
+						continue
+					}
+					base, neg := condOf(iff.Cond)
+					bo, isB := base.(*ssa.BinOp)
+					if !isB || !isNilConst(bo.Y) || !isErrType(bo.X.Type()) || (bo.Op != token.NEQ && bo.Op != token.EQL) {
+						continue
+					}
+					nonNil := (bo.Op == token.NEQ) == ((e.Succ == 0) != neg)
+					n++
+					if _, isC := rv.(*ssa.Const); !isC && bo.X == rv && !nonNil {
+						k++
+						c.R.Fail(rule, fmt.Sprintf("%s#known-nil-error.%d", p.FnKey(fn), k), p.InstrPos(ret), "the function returns "+p.Sym(rv).String()+" as its error on the edge where that value was tested to be nil (inverted test): it leaves early reporting success and carries on when the call failed")
+					}
+					if isNilConst(rv) && nonNil {
+						if _, fromCall := p.errorOfProductCall(bo.X); fromCall {
+							k++
+							c.R.Fail(rule, fmt.Sprintf("%s#error-dropped.%d", p.FnKey(fn), k), p.InstrPos(ret), "the function reports success (nil) on the edge where "+p.Sym(bo.X).String()+" was found non-nil: the fault is swallowed")
+						}
+					}
+				}
+			}
+		}
+		if k == 0 {
+			c.R.Pass(rule, p.FnKey(fn)+"#error-tests", p.Pos(fn.Pos()), "no error value is returned where it is known nil, none dropped where known non-nil")
+		}
+	}
+	return n
+}
+
+// errorOfProductCall: v is the error result of a call of a product function.
+func (p *Prog) errorOfProductCall(v ssa.Value) (*ssa.Call, bool) {
+	switch x := v.(type) {
+	case *ssa.Call:
+		if cal := p.Callee(x); cal != nil && p.IsProduct(cal) {
+			return x, true
+		}
+	case *ssa.Extract:
+		if call, ok := x.Tuple.(*ssa.Call); ok {
+			if cal := p.Callee(call); cal != nil && p.IsProduct(cal) {
+				return call, true
+			}
+		}
+	}
+	return nil, false
+}
+
+// funcsOfRels: the product functions (incl. closures) of the given packages that return an error.
+func (p *Prog) errorFuncs(rels ...string) []*ssa.Function {
+	want := map[string]bool{}
+	for _, r := range rels {
+		want[r] = true
+	}
+	var out []*ssa.Function
+	for _, fn := range p.Funcs() {
+		rel, ok := p.Rel(fn)
+		if !ok || !want[rel] {
+			continue
+		}
+		res := fn.Signature.Results()
+		for i := 0; i < res.Len(); i++ {
+			if typeShort(res.At(i).Type()) == "error" {
+				out = append(out, fn)
+				break
+			}
+		}
+	}
+	return out
+}
+
+// checkCtorRefusals (C02/X12, C03/J13, C12/Q9): a constructor (and the validation helpers whose
+// error it hands on) refuses a configuration only on a test that says an option is missing or
+// out of range - `x == nil`, `x == 0`, `x < c`, `x <= c`, a failed validity predicate - never on
+// its negation (`x != nil`, `x == 1`): otherwise valid configurations are refused and nothing is
+// ever delivered. (Which bound c is the right one is decided by the timing rules, not here.)
+func checkCtorRefusals(c *Ctx, p *Prog, d *Disc, rule string) {
+	if d == nil || len(d.Ctors) == 0 {
+		c.R.Fail(rule, p.Name+"#ctor", "-", "UNRESOLVED-ANCHOR: constructor not found")
+		return
+	}
+	for _, ctor := range d.Ctors {
+		scope := map[*ssa.Function]bool{ctor: true}
+		changed := true
+		for changed {
+			changed = false
+			for fn := range scope {
+				for _, b := range fn.Blocks {
+					ret, ok := b.Instrs[len(b.Instrs)-1].(*ssa.Return)
+					if !ok || len(ret.Results) == 0 {
+						continue
+					}
+					vals := returnedValues(ret)
+					ev := stripChangeType(vals[len(vals)-1])
+					if ex, isEx := ev.(*ssa.Extract); isEx {
+						ev = ex.Tuple
+					}
+					if call, isCall := ev.(*ssa.Call); isCall {
+						if cal := p.Callee(call); cal != nil && p.IsProduct(cal) && !scope[cal] {
+							if od := p.discOfCtor(cal); od != nil && od != d {
+								continue // the constructor of an inner discipline: decided for that discipline
+							}
+							scope[cal] = true
+							changed = true
+						}
+					}
+				}
+			}
+		}
+		n := 0
+		var fns []*ssa.Function
+		for fn := range scope {
+			fns = append(fns, fn)
+		}
+		sort.Slice(fns, func(i, j int) bool { return p.FnKey(fns[i]) < p.FnKey(fns[j]) })
+		for _, fn := range fns {
+			k := 0
+			for _, b := range fn.Blocks {
+				ret, ok := b.Instrs[len(b.Instrs)-1].(*ssa.Return)
+				if !ok || len(ret.Results) == 0 || b == fn.Recover {
+					continue
+				}
+				vals := returnedValues(ret)
+				ev := vals[len(vals)-1]
+				if typeShort(ev.Type()) != "error" || isNilConst(ev) {
+					continue
+				}
+				fv := stripChangeType(ev)
+				if ex, isEx := fv.(*ssa.Extract); isEx {
+					fv = ex.Tuple
+				}
+				if _, isCall := fv.(*ssa.Call); isCall {
+					continue // forwarded (D10/J12/Q8 decide the test around it)
+				}
+				if ld, isLd := fv.(*ssa.UnOp); !isLd || ld.Op != token.MUL {
+					continue
+				} else if _, isG := ld.X.(*ssa.Global); !isG {
+					continue
+				}
+				n++
+				k++
+				okReason := AllPathsPass(b, func(e CondEdge) bool {
+					iff := e.From.Instrs[len(e.From.Instrs)-1].(*ssa.If)
+					base, neg := condOf(iff.Cond)
+					if call, isCall := base.(*ssa.Call); isCall {
+						if cal := p.Callee(call); cal != nil && returnsBoolOnly(cal) && (e.Succ == 0) == neg {
+							return true // a validity predicate said no
+						}
+					}
+					cm := p.NormCmp(iff.Cond, e.Succ == 0)
+					if cm == nil {
+						return false
+					}
+					l, r := deepStrip(cm.L), deepStrip(cm.R)
+					switch cm.Op {
+					case token.EQL:
+						isZero := func(x *Sym, k int64) bool {
+							return k == 0 && (x.String() == "0" || x.String() == "nil" || (x.Op == "const" && (x.Name == "nil" || x.Name == "0")))
+						}
+						return isZero(r, cm.RC) && cm.LC == 0 || isZero(l, cm.LC) && cm.RC == 0
+					case token.LSS, token.LEQ:
+						// below a bound: x < c, x <= c (0 < x is the unsigned spelling of x != 0: not a refusal test)
+						// ... or above one: c < x with c != 0
+						if l.Op == "const" {
+							return !((l.String() == "0" || l.Name == "0") && cm.LC == 0)
+						}
+						return true
+					}
+					return false
+				})
+				c.R.Check(okReason, rule, fmt.Sprintf("%s#refusal.%d", p.FnKey(fn), k), p.InstrPos(ret), "refused under a missing / out-of-range test",
+					"the constructor refuses with "+p.Sym(ev).String()+" under "+describeEdges(p, DomEdges(b))+", which is not a test for a missing or out-of-range option (an inverted or altered validation): valid configurations are refused and nothing is ever delivered")
+			}
+		}
+		if n == 0 {
+			c.R.Fail(rule, p.FnKey(ctor)+"#refusal", p.Pos(ctor.Pos()), "UNRESOLVED-ANCHOR: the constructor has no validation exits")
+		}
+	}
+}
+
+// discOfCtor: the discipline fn is a constructor of (nil if none).
+func (p *Prog) discOfCtor(fn *ssa.Function) *Disc {
+	for _, d := range p.Discs() {
+		for _, ct := range d.Ctors {
+			if ct == fn {
+				return d
+			}
+		}
+	}
+	return nil
 }
